@@ -147,14 +147,14 @@ def gen(rnd: random.Random, opts: dict) -> Design:
                     tr2 = [bit(), bit()]
                     inner = []
                     for k2 in range(2):
-                        w = (D.wid, rnd.choice(["comb", "av"]), b, pos + ((("fsm", sid), 0), (("fsm", sid2), k2)))
+                        w = [D.wid, rnd.choice(["comb", "av"]), b, pos + ((("fsm", sid), 0), (("fsm", sid2), k2))]
                         D.wid += 1
                         D.wits.append(w)
                         inner.append([("wit", w)])
                     D.fsms[sid2] = 2
                     states[0].append(("fsm", sid2, inner, tr2))
                     for dom in ("av", "comb"):
-                        w = (D.wid, dom, b, pos + ((("fsm", sid), n - 1),))
+                        w = [D.wid, dom, b, pos + ((("fsm", sid), n - 1),)]
                         D.wid += 1
                         D.wits.append(w)
                         states[n - 1].append(("wit", w))
@@ -172,7 +172,7 @@ def gen(rnd: random.Random, opts: dict) -> Design:
                 nb.parent = b
                 out.append(("body", nb))
             elif r < 0.97:
-                w = (D.wid, rnd.choice(["comb", "av", "top", "sync"]), b, pos)
+                w = [D.wid, rnd.choice(["comb", "av", "top", "sync"]), b, pos]
                 D.wid += 1
                 D.wits.append(w)
                 out.append(("wit", w))
@@ -231,7 +231,110 @@ def gen(rnd: random.Random, opts: dict) -> Design:
                 o = rnd.choice(earlier)
                 D.bodies[k].rdy_or = o
                 D.sb.append((o, k, False))
+    add_module_level_wrappers(D, rnd, opts.get("p_modwrap", 0.25))
+    if rnd.random() < opts.get("p_xmod_conflict", 0.1):
+        add_cross_module_conflict_pattern(D, rnd)
+    if rnd.random() < opts.get("p_same_trans_conflict", 0.0):
+        add_same_transaction_conflict_pattern(D, rnd)
     return D
+
+
+def add_cross_module_conflict_pattern(D, rnd):
+    """Forced layout class: the first body of one elaboratable is defined under `If`, the first body of another elaboratable under the
+    `Else` of *its own* If, and the two are related by add_conflict. Alternatives of structures in different modules are not exclusive:
+    the conflict must be kept."""
+    chunks = module_chunks(D)
+    if len(chunks) < 2:
+        return False
+    c0, c1 = rnd.sample(range(len(chunks)), 2)
+    a, b = chunks[c0][0], chunks[c1][0]
+    if a.key in D.modwrap or b.key in D.modwrap:
+        return False
+    for body, alt in ((a, 0), (b, 1)):
+        sid = D.struct
+        D.struct += 1
+        D.nbits += 1
+        D.modwrap[body.key] = (sid, alt, D.nbits - 1)
+        add_prefix(body, ((("if", sid), alt),))
+    D.confl.append((a.key, b.key, Priority.UNDEFINED))
+    return True
+
+
+def add_same_transaction_conflict_pattern(D, rnd):
+    """Forced layout class: one transaction uses both ends of an add_conflict; method A is called in both alternatives of an If/Else,
+    method B only in the Else. Either the design is rejected, or (only if every pair of call sites were exclusive) both never run."""
+    tops = [b for b in D.order if b.kind == "t"]
+    if not tops:
+        return False
+    t = rnd.choice(tops)
+    a_idx, b_idx = D.nm, D.nm + 1
+    D.nm += 2
+    for idx in (a_idx, b_idx):
+        D.meth.append(dict(has_in=False, nonex=False, validate=None, combiner=None, single_caller=False))
+        b = B("m", idx)
+        b.pos = ((("body", "m", idx), 0),)
+        D.nbits += 1
+        b.rdy = D.nbits - 1
+        D.bodies[b.key] = b
+        D.order.append(b)
+        D.deford[b.key] = len(D.deford)
+    sid = D.struct
+    D.struct += 1
+    D.nbits += 1
+    cbit = D.nbits - 1
+    mixed = rnd.random() < 0.6
+    s1 = new_site(D, t, a_idx, pos=t.pos + ((("if", sid), 0),))
+    s3 = new_site(D, t, b_idx, pos=t.pos + ((("if", sid), 1),))
+    els = [("call", s3)]
+    if mixed:
+        s2 = new_site(D, t, a_idx, pos=t.pos + ((("if", sid), 1),))
+        els.insert(0, ("call", s2))
+    t.stmts.append(("if", sid, [cbit], [[("call", s1)]], els))
+    D.confl.append((("m", a_idx), ("m", b_idx), Priority.UNDEFINED))
+    return True
+
+
+def module_chunks(D):
+    order = list(D.order)
+    nmod = max(1, min(getattr(D, "nmod", 1), len(order)))
+    size = -(-len(order) // nmod)
+    return [order[i:i + size] for i in range(0, len(order), size)]
+
+
+def add_prefix(b, prefix):
+    b.pos = prefix + b.pos
+    for st in walk(b.stmts):
+        if st[0] == "call":
+            st[1].pos = prefix + st[1].pos
+        elif st[0] == "wit":
+            st[1][3] = prefix + st[1][3]
+        elif st[0] == "body":
+            add_prefix(st[1], prefix)
+
+
+def add_module_level_wrappers(D, rnd, p):
+    """Some top-level bodies are *defined* under a module-level If / Else of their elaboratable (two neighbours of one module may share one
+    If/Else, which makes their definitions mutually exclusive alternatives; bodies in different modules never are)."""
+    D.modwrap = {}
+    for chunk in module_chunks(D):
+        i = 0
+        while i < len(chunk):
+            if rnd.random() < p:
+                sid = D.struct
+                D.struct += 1
+                D.nbits += 1
+                cbit = D.nbits - 1
+                if i + 1 < len(chunk) and rnd.random() < 0.5:
+                    D.modwrap[chunk[i].key] = (sid, 0, cbit)
+                    D.modwrap[chunk[i + 1].key] = (sid, 1, cbit)
+                    add_prefix(chunk[i], ((("if", sid), 0),))
+                    add_prefix(chunk[i + 1], ((("if", sid), 1),))
+                    i += 2
+                    continue
+                alt = rnd.randrange(2)
+                D.modwrap[chunk[i].key] = (sid, alt, cbit)
+                add_prefix(chunk[i], ((("if", sid), alt),))
+            i += 1
 
 
 def add_mixed_chain_pattern(D, rnd):
@@ -477,11 +580,19 @@ def analyse(D):
     def defs_excl(t1, t2):
         return any(edges_excl(D.bodies[a].pos, D.bodies[b].pos) for a in A.reach[t1] for b in A.reach[t2])
 
-    A.same_trans_conflict = []
+    A.same_trans_conflict = []  # (transaction, a, b, priority, unsatisfiable): unsatisfiable = some pair of call sites not exclusive
     for a, b, pr in D.confl:
         for t in T:
             if a in A.reach[t] and b in A.reach[t]:
-                A.same_trans_conflict.append((t, a, b, pr))
+                if a == t or b == t:
+                    unsat = True
+                else:
+                    ca = [c for c in A.ch[t] if ("m", c[-1].callee) == a]
+                    cb = [c for c in A.ch[t] if ("m", c[-1].callee) == b]
+                    unsat = not all(chain_excl(x, y) for x in ca for y in cb)
+                    if edges_excl(D.bodies[a].pos, D.bodies[b].pos):
+                        unsat = False  # definitions in exclusive alternatives: the relation is dropped as documented
+                A.same_trans_conflict.append((t, a, b, pr, unsat))
     for t1, t2 in itertools.combinations(T, 2):
         c = False
         for c1 in A.ch[t1]:
@@ -550,15 +661,19 @@ def invalid_reasons(A):
     return out
 
 
-def repair(D, rnd):
-    """Turn a generated design into a well-formed one by deleting the offending elements (keeps most of the structure)."""
+def repair(D, rnd, keep_same_trans=False, keep_unsat_same_trans=False):
+    """Turn a generated design into a well-formed one by deleting the offending elements (keeps most of the structure).
+
+    keep_same_trans: conflicts whose two ends are used by one transaction on mutually exclusive call paths are kept (they are satisfiable).
+    keep_unsat_same_trans: even unsatisfiable ones are kept - elaboration must then reject the design (C02 profile)."""
     for _ in range(300):
         A = analyse(D)
         if A.double:
             remove_site(D, A.double_witness[2])
             continue
-        if A.same_trans_conflict:
-            t, a, b, pr = A.same_trans_conflict[0]
+        bad_stc = [x for x in A.same_trans_conflict if x[4] or not keep_same_trans]
+        if bad_stc and not keep_unsat_same_trans:
+            t, a, b, pr, unsat = bad_stc[0]
             D.confl = [c for c in D.confl if not (c[0] == a and c[1] == b)]
             continue
         if A.prio_cycle:
@@ -622,10 +737,7 @@ class Emit(Elaboratable):
     def elaborate(self, platform):
         D = self.D
         top = TModule()
-        order = list(D.order)
-        nmod = max(1, min(getattr(D, "nmod", 1), len(order)))
-        size = -(-len(order) // nmod)
-        chunks = [order[i:i + size] for i in range(0, len(order), size)]
+        chunks = module_chunks(D)
         for k, chunk in enumerate(chunks):
             top.submodules[f"part{k}"] = _Part(self, chunk, last=(k == len(chunks) - 1))
         return top
@@ -753,8 +865,32 @@ class Emit(Elaboratable):
                     m.d.top_comb += out.eq((arg.x + b.idx + 1) if md["has_in"] else (b.idx + 1))
                     stmts(b, b.stmts, arg)
 
-        for b in bodies:
-            body(b)
+        wrap = getattr(D, "modwrap", {})
+        filler = Signal(name="modwrap_filler")
+        i = 0
+        while i < len(bodies):
+            b = bodies[i]
+            w = wrap.get(b.key)
+            if w is None:
+                body(b)
+            else:
+                sid, alt, cbit = w
+                nxt = bodies[i + 1] if i + 1 < len(bodies) else None
+                if alt == 0 and nxt is not None and wrap.get(nxt.key, (None,))[0] == sid:
+                    with m.If(self.bits[cbit]):
+                        body(b)
+                    with m.Else():
+                        body(nxt)
+                    i += 1
+                elif alt == 0:
+                    with m.If(self.bits[cbit]):
+                        body(b)
+                else:
+                    with m.If(self.bits[cbit]):
+                        m.d.comb += filler.eq(1)
+                    with m.Else():
+                        body(b)
+            i += 1
         if last:
             for a, b, pr in D.confl:
                 self.objs[a].add_conflict(self.objs[b], pr)
@@ -854,12 +990,20 @@ def describe(D):
 
 def run_design(rec: Rec, D, A, rnd: random.Random, case: dict, sched: str = "eager", cycles: int = 200, exhaustive_limit: int = 10):
     """Elaborate + simulate a well-formed design and evaluate every oracle. Returns False if elaboration failed."""
+    unsat = [x for x in A.same_trans_conflict if x[4]]
     try:
         e, sim, recorder, top = build(D, sched)
     except Exception as ex:
+        if unsat and classify_exception(ex) in ("conflict_within_transaction", "prio"):
+            rec.count("designs_rejected_because_one_transaction_uses_both_ends_of_a_conflict")
+            return False
         rec.check("C11:well_formed_design_elaborates", False, case=case, detail={"exception": classify_exception(ex), "trace": traceback.format_exc()[-800:]})
         return False
-    rec.check("C11:well_formed_design_elaborates", True)
+    if unsat:
+        # elaborated although one transaction uses both ends of a conflict on non-exclusive paths: the per-cycle C02 oracle decides
+        rec.count("designs_accepted_with_unsatisfiable_conflict_inside_one_transaction")
+    else:
+        rec.check("C11:well_formed_design_elaborates", True)
     try:
         build_netlist(sim._design)
         rec.check("C10:no_combinational_cycle", True)
@@ -878,6 +1022,8 @@ def run_design(rec: Rec, D, A, rnd: random.Random, case: dict, sched: str = "eag
                 D.ifconds[st[1]] = st[2]
             if st[0] == "switch":
                 D.swinfo[st[1]] = (st[2], [v for v, _ in st[3]])
+    for key, (sid, alt, cbit) in getattr(D, "modwrap", {}).items():
+        D.ifconds[sid] = [cbit]
     nb = len(e.bits)
     exhaustive = nb <= exhaustive_limit and not D.fsms and not any(w[1] == "sync" for w in D.wits)
     aliases_of = collections.defaultdict(list)
@@ -1102,10 +1248,12 @@ def run_design(rec: Rec, D, A, rnd: random.Random, case: dict, sched: str = "eag
                               detail=dict(det, transactions=[str(t1), str(t2)], sites=bad))
             for a, b2, prio in D.confl:
                 same = any(a in A.reach[t] and b2 in A.reach[t] for t in T)
+                if same:
+                    rec.count("conflict_ends_used_by_one_transaction_on_exclusive_paths_cycles")
                 both_enabled = any(elig_s.get(ta) for ta in A.tfor(a)) and any(elig_s.get(tb_) for tb_ in A.tfor(b2))
                 if both_enabled:
                     rec.count("conflict_pairs_both_sides_enabled_cycles")
-                rec.check("C02:add_conflict_ends_never_run_together", not (run[a] and run[b2]), case=case, klass="c02:conflict_within_one_transaction" if same else "",
+                rec.check("C02:add_conflict_ends_never_run_together", not (run[a] and run[b2]), case=case, klass="",
                           detail=dict(det, ends=[str(a), str(b2)], priority=prio.name, reached_from_one_transaction=same))
                 if prio != Priority.UNDEFINED and not same and sched == "eager":
                     hi, lo = (a, b2) if prio == Priority.LEFT else (b2, a)
@@ -1321,7 +1469,7 @@ def check_c11(rec: Rec, D, rnd, case):
     reasons = invalid_reasons(A)
     outcome, ex = elaborate_outcome(D)
     rec.count("elaborations")
-    if A.same_trans_conflict and not reasons:
+    if any(x[4] for x in A.same_trans_conflict) and not reasons:
         rec.count("designs_with_conflict_inside_one_transaction(not_judged_by_C11)")
     elif reasons:
         for r in reasons:
